@@ -35,6 +35,7 @@ def Bridge_reportTrafficStats : List String := ["reportMu.Lock", "reportMu.Unloc
 def C16_Bridge_Close : List String := ["sourceConnMu.Lock", "sourceForwarder.Close", "sourceConnMu.Unlock", "tunnelConnMu.Lock", "targetForwarder.Close", "sourceTunnelConn.Close", "targetTunnelConn.Close", "sourceConn.Close", "targetConn.Close", "sourceStream.Close", "targetStream.Close", "tunnelConnMu.Unlock", "ManagerBase.Close"]
 def Dispose_Close : List String := ["currentLock.Lock", "currentLock.Unlock", "cancel", "runCleanHandlers"]
 def Dispose_runCleanHandlers : List String := ["linkLock.Lock", "copy", "linkLock.Unlock", "handler"]
+def Mapping_reportStats : List String := ["BytesSent.Swap", "BytesReceived.Swap", "client.TrackTraffic", "BytesSent.Add", "BytesReceived.Add"]
 def StreamProcessor_acquireReadLock : List String := ["readLock.Lock", "Dispose.IsClosed", "readLock.Unlock", "readLock.Unlock"]
 def StreamProcessor_acquireWriteLock : List String := ["writeLock.Lock", "Dispose.IsClosed", "writeLock.Unlock", "writeLock.Unlock"]
 def StreamProcessor_onClose : List String := ["bufferMgr.Close", "closer.Close", "closer.Close", "closer.Close", "closer.Close"]
